@@ -362,7 +362,7 @@ class C22(Prop):
                 "w": rng.random() < 0.5, "tree": self._tree(rng, tier)}
 
     def gen(self, rng, tier):
-        n = {"quick": 60, "thorough": 800, "extended": 220}[tier]
+        n = {"quick": 48, "thorough": 800, "extended": 220}[tier]
         cases = []
         # the decision tables, cell by cell, on a small fixed tree and a file
         small = {"t": "d", "c": [["a b", {"t": "f", "b": "00ff", "x": True}], ["e", {"t": "d", "c": []}],
@@ -396,7 +396,7 @@ class C22(Prop):
             for (src, dst) in ROUTES:
                 for tree in (small, fil):
                     for dstate in ("file", "conflict", "copy", "stale"):
-                        if rng.random() < (0.35 if tier == "quick" else 1.0):
+                        if rng.random() < (0.25 if tier == "quick" else 1.0):
                             cases.append({"f": "xfer", "src": src, "dst": dst, "sname": "s", "dname": rng.choice(["s", "other"]),
                                           "dstate": dstate, "w": rng.random() < 0.5, "tree": tree})
         wl = list(WRAPPED)
@@ -556,8 +556,9 @@ class C22(Prop):
     def impl_run(self, c):
         safe = shell_safe(c["sname"]) and shell_safe(c["dname"])
         # unsafe roots (known finding class) may leave the persistent shell waiting for ever: do not wait long for those
-        o = self.asyncio.run(self._run(c, 40 if safe else 6))
-        if o["err"] == "timeout" and safe:
+        # a failing remote->local copy can block for ever (known finding): kind-conflict cases get a short budget and no retry
+        o = self.asyncio.run(self._run(c, (15 if kind_conflict(c) else 40) if safe else 6))
+        if o["err"] == "timeout" and safe and not kind_conflict(c):
             # a loaded machine must not turn into an alarm: one more attempt with a generous budget; a real hang stays a hang
             o = self.asyncio.run(self._run(c, 150))
             o["retried"] = True
@@ -766,6 +767,11 @@ class C22(Prop):
         route = ALLROUTES[(c["src"], k)]
         if self._root_class(c) == "unsafe-root" and route != "LL":
             return f"xfer/{route}/unsafe-root"
+        if c["dstate"] in ("file", "conflict", "copy", "stale"):
+            # destination already holding something at the place: one class per route, source kind, state and mode
+            if kind_conflict(c) and clause == "content":
+                clause = "silent-conflict"
+            return f"xfer/{clause}/{route}/{kind}/{d}/{'w' if c['w'] else 'ro'}"
         x = ""
         if clause == "content" and kind == "file":
             x = "/exec" if c["tree"]["x"] else "/noexec"
@@ -808,6 +814,10 @@ class C22(Prop):
                 odst = f"(Some {x})"
             if kind_conflict(c):
                 return None          # outside the model's domain (FsTree.Cells.fits): tar/tarfile/cp refuse or half-copy
+            if route == "RRsame" and c["w"] and c["dstate"] in ("file", "stale"):
+                return None          # cp without -p keeps the mode of a regular file it overwrites: not modelled
+            if route == "RRsame" and c["w"] and c["dstate"] == "copy" and has_link(c["tree"]):
+                return None          # cp -r will not put a symbolic link over the directory an earlier (dereferenced) copy has there
             ps = pre_state(c)
             pre = "None" if ps is None else f"(Some {self._coq_tree(canon_in(ps))})"
             regl = od["reg"]
